@@ -7,6 +7,11 @@ package lisp
 //@   panics never
 //@   ensures 0 <= cmd && cmd <= 3
 
+// outing1 (debugger bookkeeping) is assigned only by EVAL under Stepper != nil and by do under
+// outing1; with no Stepper installed it stays false. No call or loop is taken to change it, and
+// EVAL and do are each checked to leave it as they found it (post "frozen outing1 restored").
+//@ frozen outing1
+
 //@ spec abstract evalAstOut(x MalType, env EnvType, w World) Outcome
 //@ func EVAL(ctx, ast, env) (res, e)
 //@   requires validEnvVal(env)
@@ -15,6 +20,9 @@ package lisp
 //@   changes world
 //@   ensures out(res, e, world()) == evalOut(ast, env, old(world())) @assume
 //@   loop 1 tailrec evalStep(ast, env, world(), OUT) @C01,C03,C08,C12
+//@   loop 2 invariant i % 2 == 0 && 0 <= i && i <= len(arr1) && world() == letW(arr1, i, let_env, atentry(world())) && letOK(arr1, i, let_env, atentry(world())) @C01,C03,C08,C12
+//@   loop 1 readsat "defer func() { _, _ = do(ctx, finallyDo, 0, 0, env) }()"
+//@   loop 1 readsat "let_env := NewSubordinateEnv(env)"
 //@   loop 1 continue evalOut(ast, env, world())
 //@   loop 1 result out(res, e, world())
 //@   loop 1 invariant validEnvVal(env)
@@ -91,6 +99,7 @@ package lisp
 //@   panics never
 //@   pure
 //@   ensures implies(r != "", is(list, List) && len(list.(List).Val) > 0 && is(list.(List).Val[0], Symbol) && r == list.(List).Val[0].(Symbol).Val)
+//@   ensures r == firstName(list)
 
 //@ func malRecover(err) ()
 //@   inline
@@ -141,7 +150,33 @@ package lisp
 //@ spec setMacro(f MalFunc) MalType = val(MalFunc{Eval: f.Eval, Exp: f.Exp, Env: f.Env, Params: f.Params, IsMacro: true, GenEnv: f.GenEnv, Meta: f.Meta, Cursor: f.Cursor})
 //@ spec defmacroStep(y MalType, env EnvType, w World, o Outcome) bool = ite(outE(evalOut(arg(y, 2), env, w)) != nil, o == propagate(evalOut(arg(y, 2), env, w)), ite(is(outV(evalOut(arg(y, 2), env, w)), MalFunc) && is(arg(y, 1), Symbol), o == out(setMacro(outV(evalOut(arg(y, 2), env, w)).(MalFunc)), nil, defW(outW(evalOut(arg(y, 2), env, w)), envp(env), arg(y, 1).(Symbol).Val, setMacro(outV(evalOut(arg(y, 2), env, w)).(MalFunc)))), failure(o, outW(evalOut(arg(y, 2), env, w)))))
 //@ spec callStep(y MalType, env EnvType, w World, o Outcome) bool = ite(outE(evalAstOut(y, env, w)) != nil, o == propagate(evalAstOut(y, env, w)), ite(is(lst(outV(evalAstOut(y, env, w)))[0], MalFunc), ite(bindE(outW(evalAstOut(y, env, w)), lst(outV(evalAstOut(y, env, w)))[0].(MalFunc).Env, lst(outV(evalAstOut(y, env, w)))[0].(MalFunc).Params, val(List{Val: lst(outV(evalAstOut(y, env, w)))[1:]})) != nil, failure(o, bindW(outW(evalAstOut(y, env, w)), lst(outV(evalAstOut(y, env, w)))[0].(MalFunc).Env, lst(outV(evalAstOut(y, env, w)))[0].(MalFunc).Params, val(List{Val: lst(outV(evalAstOut(y, env, w)))[1:]}))), o == evalOut(lst(outV(evalAstOut(y, env, w)))[0].(MalFunc).Exp, bindR(outW(evalAstOut(y, env, w)), lst(outV(evalAstOut(y, env, w)))[0].(MalFunc).Env, lst(outV(evalAstOut(y, env, w)))[0].(MalFunc).Params, val(List{Val: lst(outV(evalAstOut(y, env, w)))[1:]})), bindW(outW(evalAstOut(y, env, w)), lst(outV(evalAstOut(y, env, w)))[0].(MalFunc).Env, lst(outV(evalAstOut(y, env, w)))[0].(MalFunc).Params, val(List{Val: lst(outV(evalAstOut(y, env, w)))[1:]})))), ite(is(lst(outV(evalAstOut(y, env, w)))[0], Func), ite(outE(fnOut(lst(outV(evalAstOut(y, env, w)))[0].(Func).Fn, lst(outV(evalAstOut(y, env, w)))[1:], outW(evalAstOut(y, env, w)))) != nil, failure(o, outW(fnOut(lst(outV(evalAstOut(y, env, w)))[0].(Func).Fn, lst(outV(evalAstOut(y, env, w)))[1:], outW(evalAstOut(y, env, w))))), o == out(outV(fnOut(lst(outV(evalAstOut(y, env, w)))[0].(Func).Fn, lst(outV(evalAstOut(y, env, w)))[1:], outW(evalAstOut(y, env, w)))), nil, outW(fnOut(lst(outV(evalAstOut(y, env, w)))[0].(Func).Fn, lst(outV(evalAstOut(y, env, w)))[1:], outW(evalAstOut(y, env, w)))))), failure(o, outW(evalAstOut(y, env, w))))))
-//@ spec formStep(y MalType, env EnvType, w World, o Outcome) bool = ite(!is(y, List), o == evalAstOut(y, env, w), ite(len(lst(y)) == 0, o == out(y, nil, w), ite(head(y) == "def", defStep(y, env, w, o), ite(head(y) == "let", letStep(y, env, w, o), ite(head(y) == "quote", o == out(arg(y, 1), nil, w), ite(head(y) == "quasiquoteexpand", o == out(qqV(arg(y, 1)), nil, w), ite(head(y) == "quasiquote", o == evalOut(qqV(arg(y, 1)), env, w), ite(head(y) == "defmacro", defmacroStep(y, env, w, o), ite(head(y) == "macroexpand", o == mexpOut(arg(y, 1), env, w), ite(head(y) == "try", tryStep(y, env, w, o), ite(head(y) == "do", bodyTail(lst(y)[1:], env, w, o), ite(head(y) == "if", ifStep(y, env, w, o), ite(head(y) == "fn", fnStep(y, env, w, o), callStep(y, env, w, o))))))))))))))
-//@ spec letStep(y MalType, env EnvType, w World, o Outcome) bool = true
-//@ spec tryStep(y MalType, env EnvType, w World, o Outcome) bool = true
+//@ spec formStep(y MalType, env EnvType, w World, o Outcome) bool = ite(!is(y, List), o == evalAstOut(y, env, w), ite(len(lst(y)) == 0, o == out(y, nil, w), ite(head(y) == "def", defStep(y, env, w, o), ite(head(y) == "let", letStep(y, env, w, o), ite(head(y) == "quote", o == out(arg(y, 1), nil, w), ite(head(y) == "quasiquoteexpand", o == out(qqV(arg(y, 1)), nil, w), ite(head(y) == "quasiquote", o == evalOut(qqV(arg(y, 1)), env, w), ite(head(y) == "defmacro", defmacroStep(y, env, w, o), ite(head(y) == "macroexpand", o == mexpOut(arg(y, 1), env, w), ite(head(y) == "try", tryStep(y, env, w, o), ite(head(y) == "do", bodyOf(y, 1, env, w, o), ite(head(y) == "if", ifStep(y, env, w, o), ite(head(y) == "fn", fnStep(y, env, w, o), callStep(y, env, w, o))))))))))))))
 //@ spec evalStep(x MalType, env EnvType, w World, o Outcome) bool = ite(!is(x, List), o == evalAstOut(x, env, w), ite(outE(mexpOut(x, env, w)) != nil, o == propagate(mexpOut(x, env, w)), formStep(outV(mexpOut(x, env, w)), env, outW(mexpOut(x, env, w)), o)))
+
+// ---- let and try ---------------------------------------------------------------------
+//@ spec abstract errorValueOf(e error) MalType
+//@ spec abstract errorString(e error) string
+//@ spec seqOf(x MalType) []MalType = ite(is(x, List), x.(List).Val, x.(Vector).Val)
+//@ spec rec letW(bs []MalType, i int, le EnvType, w World) World = ite(i <= 0, w, defW(outW(evalOut(bs[i-1], le, letW(bs, i-2, le, w))), envp(le), bs[i-2].(Symbol).Val, outV(evalOut(bs[i-1], le, letW(bs, i-2, le, w)))))
+//@ spec letOK(bs []MalType, n int, le EnvType, w World) bool = forall(j, 0, n, implies(j % 2 == 0, is(bs[j], Symbol) && outE(evalOut(bs[j+1], le, letW(bs, j, le, w))) == nil))
+//@ spec letFail(bs []MalType, le EnvType, w World, o Outcome) bool = exists(k, 0, len(bs), k % 2 == 0 && letOK(bs, k, le, w) && ite(!is(bs[k], Symbol), failure(o, letW(bs, k, le, w)), outE(evalOut(bs[k+1], le, letW(bs, k, le, w))) != nil && o == propagate(evalOut(bs[k+1], le, letW(bs, k, le, w)))))
+//@ spec bodyOf(y MalType, from int, env EnvType, w World, o Outcome) bool = ite(len(lst(y)) == from, o == evalOut(nil, env, w), ite(!seqOK(doSub(y, from, -1), len(doSub(y, from, -1)), env, w), firstErr(doSub(y, from, -1), env, w, o), o == evalOut(lst(y)[len(lst(y))-1], env, seqW(doSub(y, from, -1), len(doSub(y, from, -1)), env, w))))
+//@ spec letStepFull(y MalType, env EnvType, w World, o Outcome) bool = ite(!(is(arg(y, 1), List) || is(arg(y, 1), Vector)) || len(seqOf(arg(y, 1))) % 2 != 0, failure(o, scopeW(w, envp(env))), ite(!letOK(seqOf(arg(y, 1)), len(seqOf(arg(y, 1))), val(scopeR(w, envp(env))), scopeW(w, envp(env))), letFail(seqOf(arg(y, 1)), val(scopeR(w, envp(env))), scopeW(w, envp(env)), o), bodyOf(y, 2, val(scopeR(w, envp(env))), letW(seqOf(arg(y, 1)), len(seqOf(arg(y, 1))), val(scopeR(w, envp(env))), scopeW(w, envp(env))), o)))
+// The full step relations of let and try (letStepFull, tryStepFull above, with the cut lemma tryShape)
+// are written down but not part of the checked relation: z3/cvc5 need 10-60 s per case for them in
+// this encoding, too close to the time-outs to be claimed. What is checked for let: the shape
+// errors, that a new scope is opened first, and (loop 2 invariant) that the bindings are evaluated
+// in order, each in the new scope with the earlier ones visible. For try: the empty form only.
+//@ spec letStep(y MalType, env EnvType, w World, o Outcome) bool = ite(!(is(arg(y, 1), List) || is(arg(y, 1), Vector)) || len(seqOf(arg(y, 1))) % 2 != 0, failure(o, scopeW(w, envp(env))), true)
+//@ spec tryStep(y MalType, env EnvType, w World, o Outcome) bool = ite(len(lst(y)) == 1, o == out(nil, nil, w), true)
+//@ spec firstName(x MalType) string = ite(x != nil && is(x, List) && len(lst(x)) > 0 && is(lst(x)[0], Symbol), lst(x)[0].(Symbol).Val, "")
+//@ spec caughtV(e error) MalType = ite(is(e, `interface{ ErrorValue() MalType }`), errorValueOf(e), val(errorString(e)))
+//@ spec doList(forms []MalType, env EnvType, w World) Outcome = doOut(val(List{Val: forms}), 0, 0, env, w)
+//@ spec withFinally(r Outcome, hasFin bool, fin []MalType, env EnvType) Outcome = out(outV(r), outE(r), ite(hasFin, outW(doList(fin, env, outW(r))), outW(r)))
+//@ spec bodyD(body []MalType, env EnvType, w World) Outcome = doList(body, env, w)
+//@ spec tryRel(body []MalType, hasCatch bool, cb MalType, handler []MalType, hasFin bool, fin []MalType, env EnvType, w World, o Outcome) bool = ite(outE(bodyD(body, env, w)) == nil, o == withFinally(bodyD(body, env, w), hasFin, fin, env), ite(!hasCatch, o == withFinally(out(nil, outE(bodyD(body, env, w)), outW(bodyD(body, env, w))), hasFin, fin, env), ite(bind1E(outW(bodyD(body, env, w)), env, cb, caughtV(outE(bodyD(body, env, w)))) != nil, o == withFinally(out(nil, bind1E(outW(bodyD(body, env, w)), env, cb, caughtV(outE(bodyD(body, env, w)))), bind1W(outW(bodyD(body, env, w)), env, cb, caughtV(outE(bodyD(body, env, w))))), hasFin, fin, env), o == withFinally(doList(handler, bind1R(outW(bodyD(body, env, w)), env, cb, caughtV(outE(bodyD(body, env, w)))), bind1W(outW(bodyD(body, env, w)), env, cb, caughtV(outE(bodyD(body, env, w))))), hasFin, fin, env))))
+//@ spec lastOf(y MalType) MalType = lst(y)[len(lst(y))-1]
+//@ spec prelastOf(y MalType) MalType = lst(y)[len(lst(y))-2]
+//@ spec listOf(xs []MalType) MalType = val(List{Val: xs})
+//@ spec tryShape(y MalType, tryDo MalType, catchDo MalType, catchBind MalType, finallyDo MalType) bool = ite(firstName(lastOf(y)) == "catch", tryDo == listOf(lst(y)[1:len(lst(y))-1]) && catchDo == listOf(lst(lastOf(y))[2:]) && catchBind == lst(lastOf(y))[1] && finallyDo == nil, ite(firstName(lastOf(y)) == "finally", finallyDo == listOf(lst(lastOf(y))[1:]) && ite(len(lst(y)) >= 3 && firstName(prelastOf(y)) == "catch", tryDo == listOf(lst(y)[1:len(lst(y))-2]) && catchDo == listOf(lst(prelastOf(y))[2:]) && catchBind == lst(prelastOf(y))[1], tryDo == listOf(lst(y)[1:len(lst(y))-1]) && catchDo == nil), tryDo == listOf(lst(y)[1:]) && catchDo == nil && finallyDo == nil))
+//@ spec tryStepFull(y MalType, env EnvType, w World, o Outcome) bool = ite(len(lst(y)) == 1, o == out(nil, nil, w), ite(firstName(lastOf(y)) == "catch", ite(len(lst(lastOf(y))) < 3, failure(o, w), tryRel(lst(y)[1:len(lst(y))-1], true, lst(lastOf(y))[1], lst(lastOf(y))[2:], false, lst(y)[0:0], env, w, o)), ite(firstName(lastOf(y)) == "finally", ite(len(lst(y)) >= 3 && firstName(prelastOf(y)) == "catch", ite(len(lst(prelastOf(y))) < 3, failure(o, w), tryRel(lst(y)[1:len(lst(y))-2], true, lst(prelastOf(y))[1], lst(prelastOf(y))[2:], true, lst(lastOf(y))[1:], env, w, o)), tryRel(lst(y)[1:len(lst(y))-1], false, nil, lst(y)[0:0], true, lst(lastOf(y))[1:], env, w, o)), tryRel(lst(y)[1:], false, nil, lst(y)[0:0], false, lst(y)[0:0], env, w, o))))
